@@ -543,8 +543,56 @@ def select_task(chunk):
     return {'outcome': oc, 'viol': out_v, 'n': n, 'transitions': n}
 
 
+# attribute names that begin with, end with or contain a word of the filter language: the lexer must read each as one identifier
+KEYWORDISH_NAMES = ['nullable', 'null_x', 'nulls', 'is_null', 'true_color', 'truex', 'falsey', 'false_positive', 'order', 'or_else', 'android', 'and1', 'band', 'xor', 'nota',
+                    'x_true', 'trueornull', 'orand']
+
+
+def name_task(chunk):
+    """One small spec per attribute name: a Boolean? attribute <name> with routes rt (true), rf (false), rn (absent); the filters
+    <name>=true, <name>!=true, <name>=null, '<name>=false or <name>=null', '(<name>=true)and <name>!=null' select what the
+    reference says."""
+    oc = collections.Counter()
+    out_v = []
+    n = 0
+    for name in chunk:
+        d = explore.fresh_dir('c19n')
+        try:
+            cfg = os.path.join(d, 'cfg.stone')
+            with open(cfg, 'w') as f:
+                f.write('namespace stone_cfg\n\nstruct Route\n    %s Boolean?\n    plain Int64 = 1\n' % name)
+            spec = os.path.join(d, 'nn.stone')
+            with open(spec, 'w') as f:
+                f.write('namespace nn\n\nroute rt(Void, Void, Void)\n    attrs\n        %s = true\n\nroute rf(Void, Void, Void)\n    attrs\n        %s = false\n\nroute rn(Void, Void, Void)\n' % (name, name))
+            be = os.path.join(d, 'rec.stoneg.py')
+            with open(be, 'w') as f:
+                f.write(BACKEND_SRC)
+            for expr, want in (('%s=true' % name, ['rt']), ('%s!=true' % name, ['rf', 'rn']), ('%s=null' % name, ['rn']), ('%s=false or %s=null' % (name, name), ['rf', 'rn']),
+                               ('(%s=true)and %s!=null' % (name, name), ['rt']), ('plain=1 and %s = false' % name, ['rf'])):
+                n += 1
+                out = os.path.join(d, 'o%d' % n)
+                code, api, so, se, esc = impl.run_cli([be, out, spec, cfg, '-f', expr])
+                inputs = {'attribute': name, 'expression': expr}
+                got = None
+                fp = os.path.join(out, 'rec.json')
+                if os.path.exists(fp):
+                    with open(fp) as f:
+                        got = sorted(r[0] for r in json.load(f)['ns']['nn']['routes'])
+                if esc is not None or code != 0 or got is None:
+                    oc['name:refused'] += 1
+                    out_v.append(viol('filter:attribute-name:refused', 'well-formed filter %r over the attribute %r was not accepted: exit %r %s %s' % (expr, name, code, (se or '')[:160], esc[:2] if esc else ''), inputs))
+                elif got != sorted(want):
+                    oc['name:wrong-routes'] += 1
+                    out_v.append(viol('filter:attribute-name:wrong-routes', 'filter %r kept %r, expected %r' % (expr, got, sorted(want)), inputs))
+                else:
+                    oc['name:ok'] += 1
+        finally:
+            shutil.rmtree(d, ignore_errors=True)
+    return {'outcome': oc, 'viol': out_v, 'n': n, 'transitions': n}
+
+
 def task(item):
-    return {'cli': expr_cli_task, 'seam': expr_seam_task, 'mal': malformed_task, 'sel': select_task}[item[0]](item[1])
+    return {'cli': expr_cli_task, 'seam': expr_seam_task, 'mal': malformed_task, 'sel': select_task, 'names': name_task}[item[0]](item[1])
 
 
 def chunks(lst, k):
@@ -638,6 +686,8 @@ def run(tier, seed):
             mal.append(extra)
     sels = selection_states(tier)
     items = [('cli', c) for c in chunks(cli_exprs, 40)] + [('seam', c) for c in chunks(seam_exprs, 400)] + [('mal', c) for c in chunks(mal, 60)] + [('sel', c) for c in chunks(sels, 40)]
+    items += [('names', c) for c in chunks(KEYWORDISH_NAMES, 3)]
+    r.bounds['keywordish_attribute_names'] = KEYWORDISH_NAMES
     r.bounds.update({'routes_in_spec': len(ROUTES), 'namespaces': NAMESPACES, 'schema': SCHEMA, 'atoms': len(ATOMS_ALL),
                      'cli_expression_trees': len(cli_trees), 'cli_expression_texts': len(cli_exprs), 'seam_expression_trees': len(seam_trees), 'seam_expression_texts': len(seam_exprs),
                      'edited_token_strings': len(mal), 'selection_command_lines': len(sels),
